@@ -2,8 +2,14 @@
 use super::sym;
 
 pub fn lookup(name: &str) -> Option<fn()> {
-    None.or_else(|| super::sort_h::lookup(name))
-        .or_else(|| super::boxcar_h::lookup(name))
+    let r = None
+        .or_else(|| super::sort_h::lookup(name))
+        .or_else(|| super::boxcar_h::lookup(name));
+    #[cfg(nucleo_verif_shims)]
+    let r = r
+        .or_else(|| super::proto_h::lookup(name))
+        .or_else(|| super::proto_h::probes::lookup(name));
+    r
 }
 
 #[cfg(test)]
